@@ -860,7 +860,12 @@ fn tree_obs<F: Float, L: linfa::Label + std::fmt::Debug + Default>(m: &DecisionT
     for (i, n) in m.iter_nodes().enumerate() {
         node_obs(&mut ob, &format!("node{}.", i), n);
     }
-    ob.us("features", m.features()).fl("mean_impurity_decrease", m.mean_impurity_decrease()).fl("relative_impurity_decrease", m.relative_impurity_decrease()).fl("feature_importance", m.feature_importance());
+    // by-catch (C20's subject, not a round-trip matter): DecisionTree::features() is documented as
+    // breadth-first order but returns the iteration order of a HashSet (algorithm.rs:565-575), which
+    // differs between two calls on the SAME tree; observed as a set here
+    let mut feats = m.features();
+    feats.sort();
+    ob.us("features(sorted)", feats).fl("mean_impurity_decrease", m.mean_impurity_decrease()).fl("relative_impurity_decrease", m.relative_impurity_decrease()).fl("feature_importance", m.feature_importance());
     ob.u1("max_depth", m.max_depth()).u1("num_leaves", m.num_leaves());
     ob.st("tikz", m.export_to_tikz().with_legend().to_string());
     ob.st("predict", m.predict(q).iter().map(|l| format!("{:?}", l)).collect::<Vec<_>>().join(","));
@@ -982,6 +987,17 @@ fn tree_node(r: &mut Runner) {
         // TreeNode's PartialEq only compares the feature index; still required to hold
         round_trip(o, &Spec::full(&obs), &node);
     }
+    r.inst("f64/noisy4class/entropy/root_subtree", |o| {
+        let (x, y) = blobs_overlap::<f64>(160, 3, 4, 206);
+        let m: DecisionTree<f64, usize> = o.need("tree fit", DecisionTree::params().split_quality(SplitQuality::Entropy).max_depth(Some(4)).fit(&Dataset::new(x, y)));
+        let node = m.root_node().clone();
+        let obs = |n: &TreeNode<f64, usize>| {
+            let mut ob = Ob::new();
+            subtree_obs(&mut ob, "", n);
+            ob.done()
+        };
+        round_trip(o, &Spec::full(&obs), &node);
+    });
     r.inst("f64/usize/root_subtree", |o| go::<f64, usize>(o, |c| c, "root_subtree"));
     r.inst("f64/string/leaf", |o| go::<f64, String>(o, |c| ["a", "b", "c"][c].to_string(), "leaf"));
     r.inst("f32/usize/root_subtree", |o| go::<f32, usize>(o, |c| c, "root_subtree"));
@@ -994,6 +1010,22 @@ fn tree_model(r: &mut Runner) {
         let obs = |m: &DecisionTree<F, L>| tree_obs(m, &q);
         round_trip(o, &Spec::full(&obs), &m);
     }
+    /// overlapping 4-class blobs: impure splits, so impurity decreases / importances are generic
+    /// floating-point numbers (not exactly representable in f32) at many nodes
+    fn go_noisy<F: SF>(o: &mut Out, quality: SplitQuality, depth: Option<usize>, seed: u64) {
+        let (x, y) = blobs_overlap::<F>(160, 3, 4, seed);
+        let ds = Dataset::new(x.clone(), y);
+        let m: DecisionTree<F, usize> = o.need("tree fit", DecisionTree::params().split_quality(quality).max_depth(depth).min_weight_leaf(2.0).fit(&ds));
+        let q = pool::<F>(3, Some(&x));
+        let obs = |m: &DecisionTree<F, usize>| tree_obs(m, &q);
+        round_trip(o, &Spec::full(&obs), &m);
+    }
+    for seed in [201u64, 202, 203] {
+        r.inst(&format!("f64/noisy4class/entropy/depth4/seed{}", seed), |o| go_noisy::<f64>(o, SplitQuality::Entropy, Some(4), seed));
+        r.inst(&format!("f64/noisy4class/gini/unbounded/seed{}", seed), |o| go_noisy::<f64>(o, SplitQuality::Gini, None, seed));
+    }
+    r.inst("f64/noisy4class/entropy/unbounded/seed204", |o| go_noisy::<f64>(o, SplitQuality::Entropy, None, 204));
+    r.inst("f32/noisy4class/entropy/depth5/seed205", |o| go_noisy::<f32>(o, SplitQuality::Entropy, Some(5), 205));
     r.inst("f64/usize/unbounded", |o| go::<f64, usize>(o, |c| c, false, None));
     r.inst("f64/usize/feature_names/depth3", |o| go::<f64, usize>(o, |c| c, true, Some(3)));
     r.inst("f64/string/depth2", |o| go::<f64, String>(o, |c| ["cat", "dog", "ant"][c].to_string(), true, Some(2)));
